@@ -52,9 +52,7 @@ Proof. exact tree_order_perm. Qed.
 (* ordering inside a box; sorting never loses a line *)
 Theorem C08_box_lines_ordered : forall lines b,
   Permutation (box_lines_sorted lines b) (blines b) /\
-  sorted_by (fun m => match nth_error lines m with
-                      | Some l => match bori b with OH => - by1 (the_box (lbox l)) | OV => - bx1 (the_box (lbox l)) end
-                      | None => 0 end) (box_lines_sorted lines b).
+  sorted_le (fun m1 m2 => pair_le (line_key lines b m1) (line_key lines b m2)) (box_lines_sorted lines b).
 Proof. exact box_lines_ordered. Qed.
 
 (* boxes_flow = None: numbered 0..n-1 in output order *)
